@@ -3,6 +3,7 @@ import os, json
 from concurrent.futures import ThreadPoolExecutor
 import vlib
 from vlib import Check
+from props import igslib
 
 SPEC = "spec/gfx"
 
@@ -10,6 +11,8 @@ SPEC = "spec/gfx"
 def key(v, ev):
     pred = v.get("pred")
     info = v.get("info") or {}
+    if "Trace_Igs" in str(v.get("module", "")) or "/igs/" in str(v.get("trace", "")) or os.path.basename(str(v.get("trace", ""))).startswith("igs-"):
+        return igslib.key(v, ev)
     if pred in ("Outcome", "PictureOutcome") and ev and ev.get("site"):
         return "panic@" + ev["site"]
     if pred in ("Abort", "Stall"):
@@ -45,17 +48,25 @@ def run():
             if k in by_case:
                 v["event"] = by_case[k]
     c.sample_from(traces[0], 3)
-    c.extra["cases"] = sum(int(r.get("r4", 0)) for r in c.reports)
-    c.extra["characters"] = sum(int(r.get("r5", 0)) for r in c.reports)
-    c.extra["pictures_checked"] = sum(int(r.get("r6", 0)) for r in c.reports)
+    # the IGS lexer and loop engine: faithful model Igs.tla, observed through the cfg(icy_engine_verif) snapshot hook
+    n_before = len(c.reports)
+    igslib.run_into(c, c.tier == "thorough")
+    gfx_reports = c.reports[:n_before]
+    c.extra["cases"] = sum(int(r.get("r4", 0)) for r in gfx_reports)
+    c.extra["characters"] = sum(int(r.get("r5", 0)) for r in gfx_reports)
+    c.extra["pictures_checked"] = sum(int(r.get("r6", 0)) for r in gfx_reports)
     c.extra["tlc_table_entries"] = n_table
     c.extra["worker_crashes"] = len(crashes)
-    c.extra["distinct_nontrivial"] = c.extra["cases"]
+    c.extra["distinct_nontrivial"] = c.extra["cases"] + int(c.extra.get("igs_cases", 0))
     c.rule = ("the command x parameter-length table exported by TLC from Gfx.tla (every RIP level-0/1/9 command x lengths 0..24 x digits {0,1,Z}; every IGS command x 0..12 parameters from "
               "{-50,0,1,99999,319,5}), each with three terminators and seeded digit mixes, plus seeded random command streams (text, ANSI, continuation lines, text variables, loops, chained "
               "commands); each character is one recorded step (outcome, step time), pending IGS loop steps are polled, the exposed canvas is read after every command terminator and must hold "
-              "width x height x 4 bytes; hangs/aborts are contained per case. R1: the RIP framing automaton is total. distinct_nontrivial = number of cases.")
-    c.assumptions = ["step time limit 5 s, case watchdog 8 s on this machine", "the RIP/IGS parser state is not observable through the API: the model layer only tracks the set of framing states the model allows"]
+              "width x height x 4 bytes; hangs/aborts are contained per case. R1: the RIP framing automaton is total. "
+              "IGS: Igs.tla is a deterministic character-level model of the lexer and the loop engine (TLC: totality, <= 1 executor call per character or poll, loops make progress, "
+              "the lexer returns to Default after a terminator); the driver records the lexer snapshot (cfg hook) and every executor call after every character and every loop poll, "
+              "Trace_Igs recomputes the step: property layer Outcome / ExecBound / StepTime / LoopProgress / Abort / Stall, model layer drift on the whole snapshot. "
+              "distinct_nontrivial = number of cases (both drivers).")
+    c.assumptions = ["step time limit 5 s, case watchdog 8 s on this machine", "the RIP parser state is tracked as the set of framing states the model allows; the IGS lexer state is read through the cfg(icy_engine_verif) snapshot hook"]
     return c.finish()
 
 
